@@ -59,9 +59,9 @@ theorem budget_nonneg (eps e1 : K) (h : 0 ≤ e1) (he : e1 ≤ eps) : 0 ≤ (1 +
   rw [sub_nonneg, le_div_iff₀ h1]; linarith
 
 /-- constants the model was written against, re-extracted from round.py / tensor.py on every run:
-    zero threshold 1e-13 (batch and non-batch branch) and the unit of the guarded reciprocal; negative eigenvalues are clamped to 0 (no constant) -/
+    negative-eigenvalue substitute 1e-8, zero threshold 1e-13 (batch and non-batch branch), the unit of the guarded reciprocal -/
 theorem constants_from_source :
-    Generated.floats_round_truncated_svd = [(1, 10000000000000), (1, 10000000000000), (1, 1)] := rfl
+    Generated.floats_round_truncated_svd = [(1, 100000000), (1, 10000000000000), (1, 10000000000000), (1, 1)] := rfl
 
 /-! ## the error bound of `round_tt` (TT cores, `algorithm='svd'`)
 
